@@ -83,11 +83,26 @@ func (checker *ChecksumChecker) Value(t *ast.Task) (any, error) {
 	return checker.checksum(t)
 }
 
+// Record stores hash (as computed by Value before the commands ran) as the
+// checksum of the last successful run.
+func (checker *ChecksumChecker) Record(t *ast.Task, hash string) error {
+	if len(t.Sources) == 0 || checker.dry {
+		return nil
+	}
+	if err := os.MkdirAll(filepathext.SmartJoin(checker.tempDir, "checksum"), 0o755); err != nil {
+		return err
+	}
+	return os.WriteFile(checker.checksumFilePath(t), []byte(hash+"\n"), 0o644)
+}
+
 func (checker *ChecksumChecker) OnError(t *ast.Task) error {
 	if len(t.Sources) == 0 {
 		return nil
 	}
-	return os.Remove(checker.checksumFilePath(t))
+	if err := os.Remove(checker.checksumFilePath(t)); err != nil && !os.IsNotExist(err) {
+		return err
+	}
+	return nil
 }
 
 func (*ChecksumChecker) Kind() string {
